@@ -11,7 +11,11 @@ from common import sx
 import minif
 from props import c11_gen, c11_export as X, c11_progs
 
-MODEL_RULE = "fixed"     # the committed model follows fixes/C11-intrinsic-subroutine-args-written.patch
+# The committed model follows the code with the four C11 fixes applied (fixes/C11-intrinsic-subroutine-args-written,
+# C11-inquiry-subscripts, C11-pure-subroutine-local-intents, C11-codeblock-accesses): rule "fixed".
+# Should C11-codeblock-accesses.patch not be applied to /repo: set this to "fixed3" and set the status of the entry
+# C11-codeblock-accesses-ignored in known_findings.d/C11.json back to "finding".
+MODEL_RULE = "fixed"
 
 
 # ---------------------------------------------------------------------------
@@ -34,6 +38,10 @@ def parse_source(src, convert):
                 except (TypeError, ValueError):
                     continue
                 call.replace_with(new)
+    # a PURE subroutine whose definition is elsewhere: the frontend cannot know it is pure, a resolved import would
+    for call in psyir.walk(N.Call):
+        if type(call) is N.Call and call.routine.name.lower().startswith("epsub"):
+            call.routine.symbol.is_pure = True
     return psyir
 
 
@@ -41,7 +49,7 @@ def statement_nodes(psyir):
     """every statement the exporter knows, at every nesting level, in walk order"""
     from psyclone.psyir import nodes as N
     out = []
-    for n in psyir.walk((N.Assignment, N.IfBlock, N.Loop, N.Call)):
+    for n in psyir.walk((N.Assignment, N.IfBlock, N.Loop, N.Call, N.WhileLoop, N.Return, N.CodeBlock)):
         if isinstance(n, N.Call) and not isinstance(n.parent, N.Schedule):
             continue
         if n.ancestor(N.Routine) is None:
@@ -85,24 +93,22 @@ def classify(item, miss_r, miss_w):
     from psyclone.psyir import nodes as N
     if item.model != item.real:
         return None       # the committed model does not reproduce it: new
-    if miss_r and not miss_w:
-        # subscripts of the inquired (first) argument of an inquiry intrinsic are evaluated but not reported
-        inq = set()
-        for c in item.node.walk(N.IntrinsicCall):
-            if c.intrinsic.is_inquiry and c.arguments and isinstance(c.arguments[0], N.Reference):
-                for comp in X.sig_indices(c.arguments[0])[1]:
-                    for i in comp:
-                        inq |= {X.sig_indices(r)[0] for r in i.walk(N.Reference)}
-        if inq and set(miss_r) <= inq:
-            return "C11-inquiry-subscripts-not-read"
-        return None
-    if miss_r or not miss_w:
-        return None
+    # a CodeBlock records nothing: every missing item is a variable named in a CodeBlock of the statement
+    cb_r, cb_w = set(), set()
+    for cb in item.node.walk(N.CodeBlock):
+        r, w = X.codeblock_names(cb)
+        cb_r |= r
+        cb_w |= w
     pure_args = set()
     for c in item.node.walk(N.Call):
-        if type(c) is N.Call and isinstance(c.parent, N.Schedule) and c.is_pure:
+        if (type(c) is N.Call and isinstance(c.parent, N.Schedule) and c.is_pure
+                and X.local_callee(c) is None):
             pure_args |= {X.sig_indices(a)[0] for a in c.arguments if isinstance(a, N.Reference)}
-    if pure_args and set(miss_w) <= pure_args:
+    if not (set(miss_r) <= cb_r and set(miss_w) <= (cb_w | pure_args)):
+        return None
+    if set(miss_r) & cb_r or set(miss_w) & cb_w:
+        return "C11-codeblock-accesses-ignored"
+    if set(miss_w) & pure_args:
         return "C11-pure-subroutine-args-read"
     return None
 
@@ -240,8 +246,8 @@ def test_files(chk):
 
 
 def run(chk):
-    chk.cov["rule"] = ("one case = one statement (Assignment, IfBlock, Loop, CALL, intrinsic statement incl. ALLOCATE/"
-                       "DEALLOCATE; at every nesting level) of a generated program or of a bundled NEMO/GOcean/LFRic "
+    chk.cov["rule"] = ("one case = one statement (Assignment, IfBlock, Loop, WhileLoop, CALL, intrinsic statement incl. "
+                       "ALLOCATE/DEALLOCATE, Return, CodeBlock; at every nesting level) of a generated program or of a bundled NEMO/GOcean/LFRic "
                        "test file; compared: per-variable ordered (kind, location, #indices) lists + end location + "
                        "refusal; non-trivial = not refused and at least two variables accessed; distinct by text+result")
     chk.assumptions += [
@@ -250,7 +256,12 @@ def run(chk):
         "intents of intrinsic subroutines as in Fortran 2018 ch.16 (table STD_MODIFIES in c11_export.py)",
         "the observable of VariablesAccessInfo is the per-signature access list (kind, location, #indices); the "
         "global interleaving of different signatures is not stored by the real code",
-        "MiniF value domain (integers); rank>2 / section references are traced on their first two subscripts"]
+        "MiniF value domain (integers); rank>2 / section references are traced on their first two subscripts",
+        "DO WHILE is traced for a bounded number of iterations (theorems: every bound); RETURN/EXIT/CYCLE are modelled as "
+        "no-ops: the real trace is a prefix of the modelled one",
+        "a CodeBlock is an opaque statement with a may-read / may-define variable set taken from its fparser2 parse tree "
+        "(codeblock_names in c11_export.py)",
+        "a PURE subroutine defined in the same Container cannot store into INTENT(IN) dummies (declared intents are trusted)"]
     chk.cov["trusted_base"] = ["Lean 4.33.0 kernel", "axioms propext/Classical.choice/Quot.sound only (audited)",
                                "translator harness/props/c11_gen.py (IntrinsicCall.Intrinsic -> Gen/Intrinsics.lean)",
                                "exporter + oracle harness/props/c11_export.py", "fparser2 / PSyIR frontend"]
